@@ -70,6 +70,7 @@ pub fn base_preset(r: &Run) -> Preset {
         no_del_on_variable_paths: r.excluded("del-on-variable-path"),
         no_effects_in_call_args: r.excluded("effects-in-call-arguments"),
         no_closure_outer_assign: r.excluded("closure-assigns-outer-variable"),
+        avoid_kind_findings: r.excluded("kind-level-known-findings"),
         ..proggen::BASE
     }
 }
